@@ -121,6 +121,7 @@ def analyse(run, sites, tag):
         expect_lock = None  # lane obj popped from a list: must be locked next by this thread
         stack = []          # lanes whose drain lock the thread holds
         cur_call = None     # (lane obj, ticket) between DVU_CALL and DVU_RET
+        after_xor = {}      # lane obj -> this thread's last dq_state step on it was the DIRTY xor
         open_callout = {}
         for e in evs:
             if e.kind >= 100:
@@ -191,8 +192,8 @@ def analyse(run, sites, tag):
             where = {"lane": e.obj, "thread": thr, "tid": e.tid, "seq": e.seq, "line": "%d:%d" % (e.line // 100000, e.line % 100000)}
             if code == 1:
                 cases.append((1, e.tid, mq(old), 0, 0, old, new, where))
-                if expect_lock is not None and expect_lock != e.obj:
-                    mm("(d) thread popped lane %d but locked lane %d" % (expect_lock, e.obj), thread=thr, seq=e.seq)
+                if expect_lock != e.obj and (expect_lock is not None or stack):
+                    mm("(d) thread locked lane %d, the lane object it popped last from the list it drains is %s" % (e.obj, expect_lock), thread=thr, seq=e.seq)
                 expect_lock = None
                 par = run.parent_obj(e.obj)
                 if (stack and stack[-1] != par) or (not stack and par is not None):
@@ -208,6 +209,7 @@ def analyse(run, sites, tag):
                 bump("unlock")
             elif code == 3:
                 cases.append((3, 0, 0, 0, 0, old, new, where))
+                after_xor[e.obj] = True
                 bump("unlock refused (DIRTY): %s" % ("inner lane" if run.parent_obj(e.obj) is not None else "bottom"))
             elif code == 4:
                 lp = last_push.get(e.obj)
@@ -237,6 +239,12 @@ def analyse(run, sites, tag):
                     last_enq[e.obj] = new
                     owe_push = (e.obj, e.seq) if run.parent_obj(e.obj) is not None else None
                 bump("invoke_finish (inner lane re-enqueued)")
+            if code != 3 and after_xor.pop(e.obj, False):
+                # the model: a bottom drains again after the xor (next word step: unlock or xor), an inner lane calls invoke_finish
+                inner = run.parent_obj(e.obj) is not None
+                # (a callout of the bottom may submit to the bottom itself: a wakeup in between is fine)
+                if (inner and code != 5) or (not inner and code in (1, 5)):
+                    mm("(c) after the DIRTY xor on %s lane %d the thread's next dq_state step is %s" % ("inner" if inner else "bottom", e.obj, CODE_NAME[code]), thread=thr, seq=e.seq)
             trans.setdefault(e.obj, []).append((e.seq, thr, e.tid, code, old, new))
         if stack:
             mm("(c) thread ends with lanes %s still locked" % stack, thread=thr)
